@@ -17,6 +17,7 @@
 From Coq Require Import List ZArith NArith.
 From Astisub Require Import Kit.Base Kit.Str Model.Files Model.Ops Model.Srt Model.Vtt Model.Conv Model.ConvOps Model.Plain Model.PlainOps Proofs.FilesProofs.
 From Astisub Require Import Proofs.SrtProofs Proofs.VttDoc Proofs.ConvProofs Proofs.ConvOpsProofs Proofs.PlainProofs Proofs.PlainOpsProofs.
+From Astisub Require Import Model.PlainSsa Proofs.PlainSsaProofs.
 Import ListNotations.
 
 (* SubRip file -> WebVTT file: cues, order, times to the millisecond, text per line *)
@@ -108,6 +109,11 @@ Example C07_pair_ops_example :
   [(0%Z, 400000000%Z, [[65]%N]); (1500000000%Z, 5500000000%Z, [[72; 105]%N]); (6500000000%Z, 7500000000%Z, [[89; 111]%N])].
 Proof. exact ex_pops_result. Qed.
 
+Theorem C07_ssa_plain_faithful : plain_faithful ssa_unit ssa_plain_ok ssa_enc ssa_dec.
+Proof. exact ssa_plain_faithful. Qed.
+Print Assumptions C07_ssa_plain_faithful.
+Example C07_ssa_plain_example : ssa_plain_ok ex_plain /\ ssa_plain_ok (ptrunc 1000000 ex_plain).
+Proof. split; [exact ex_plain_ssa_ok | exact ex_plain_ssa_after_srt]. Qed.
 Example C07_plain_example : srt_plain_ok ex_plain /\ vtt_plain_ok (ptrunc 1000000 ex_plain).
 Proof. split; [exact ex_plain_srt_ok | exact ex_plain_vtt_ok]. Qed.
 
